@@ -33,6 +33,8 @@ type Index struct {
 	LowerKW bool `json:"lower_kw,omitempty"`
 	// Note: in native style a comment sits between the index parts and the WHERE keyword (kept by SQLite in the stored text)
 	Note bool `json:"note,omitempty"`
+	// Loose (native style): bit 0 = expression parts without parentheses of their own, bit 1 = explicit ASC on ascending parts
+	Loose int `json:"loose,omitempty"`
 }
 
 type FK struct {
@@ -292,9 +294,14 @@ func (ix Index) DDL(style Style, table string) string {
 		s := q(style, p.Col)
 		if p.Expr != "" {
 			s = "(" + p.Expr + ")"
+			if ix.Loose&1 != 0 && style == StyleNative {
+				s = p.Expr // SQLite does not ask for parentheses around an expression part
+			}
 		}
 		if p.Desc {
 			s += " DESC"
+		} else if ix.Loose&2 != 0 && style == StyleNative {
+			s += " ASC"
 		}
 		parts = append(parts, s)
 	}
